@@ -601,9 +601,11 @@ class JsonDeserializer {
   }
 
   static inline uint8_t decodeHex(char c) {
-    if (c < 'A')
+    if (c <= '9')
       return uint8_t(c - '0');
     c = char(c & ~0x20);  // uppercase
+    if (c < 'A')
+      return 0xFF;  // ':' to '@' and '`' are not hexadecimal digits
     return uint8_t(c - 'A' + 10);
   }
 
